@@ -4,14 +4,18 @@ use crate::spec::*;
 use proptest::prelude::*;
 use proptest::strategy::BoxedStrategy;
 
-pub const BOUNDARY_U64: [u64; 13] = [
+pub const BOUNDARY_U64: [u64; 17] = [
     0,
     1,
     2,
     79,
     80,
     81,
+    (1 << 16) - 1,
+    1 << 31,
+    (1 << 32) - 1,
     1 << 32,
+    (1 << 32) + 1,
     (1 << 53) - 1,
     (1 << 53) + 1,
     (1 << 63) - 1,
@@ -22,9 +26,13 @@ pub const BOUNDARY_U64: [u64; 13] = [
 
 pub fn boundary_u64() -> BoxedStrategy<u64> {
     prop_oneof![
-        4 => proptest::sample::select(BOUNDARY_U64.to_vec()),
-        1 => any::<u64>(),
-        1 => 0u64..1000,
+        8 => proptest::sample::select(BOUNDARY_U64.to_vec()),
+        2 => any::<u64>(),
+        2 => 0u64..1000,
+        // just below / around a power of two or ten (width- and digit-count-dependent code)
+        1 => (proptest::sample::select(vec![8u32, 15, 16, 24, 31, 32, 33, 48, 53, 62, 63]), 0u64..4, any::<bool>()).prop_map(|(k, d, up)| if up { (1u64 << k).saturating_add(d) } else { (1u64 << k) - 1 - d }),
+        1 => (1u32..20, 0u64..3, any::<bool>()).prop_map(|(k, d, up)| { let p = 10u64.pow(k.min(19)); if up { p.saturating_add(d) } else { p - 1 - d } }),
+        1 => (1u64 << 31)..(1u64 << 32),
     ]
     .boxed()
 }
@@ -216,6 +224,22 @@ pub fn order_spec(cfg: OrderGenCfg) -> BoxedStrategy<OrderSpec> {
             },
         )
         .boxed()
+}
+
+/// Longest-encoding variant of an order description: every numeric field gets a 20-digit value
+/// (length-dependent code paths; used with low probability by the codec generators).
+pub fn widest(mut s: OrderSpec, salt: u64) -> OrderSpec {
+    let big = |k: u64| u64::MAX - (salt.wrapping_mul(2654435761).wrapping_add(k) % 1_000_000);
+    s.display = big(1);
+    s.hidden = if s.kind.has_hidden() { big(2) } else { 0 };
+    s.ts = big(3);
+    s.threshold = big(4);
+    s.amount = Some(big(5));
+    s.trail = big(6);
+    s.lastref = big(7);
+    s.offset = i64::MIN + (salt % 1000) as i64;
+    s.tif = Tif::Gtd(big(8));
+    s
 }
 
 /// Map a generated index monotonically onto 0..len (keeps shrinking effective).
